@@ -2392,6 +2392,13 @@ static int _send_raw(xmpp_conn_t *conn,
     xmpp_send_queue_t *item;
     const char *req_ack = "<r xmlns='urn:xmpp:sm:3'/>";
 
+    /* What the library queues before stream management is enabled belongs to
+     * the stream negotiation.  It must never be counted as a stanza, even if
+     * the transport is slow and it is only written after <enable/> has been
+     * queued behind it. */
+    if (owner == XMPP_QUEUE_STROPHE && !conn->sm_state->sm_enabled)
+        owner = XMPP_QUEUE_SM_STROPHE;
+
     /* create send queue item for queue */
     item = strophe_alloc(conn->ctx, sizeof(xmpp_send_queue_t));
     if (!item) {
